@@ -97,7 +97,7 @@ fn compute_mithril_stake_distribution_message(
             MithrilSigner::try_into_signers(clone_parts(&mithril_stake_distribution.signers_with_stake))?;
 
         let signer_builder =
-            SignerBuilder::new(&signers, &certificate.metadata.protocol_parameters)?;
+            SignerBuilder::new(&signers, &mithril_stake_distribution.protocol_parameters)?;
 
         let aggregate_verification_key = signer_builder.compute_aggregate_verification_key();
 
